@@ -19,7 +19,7 @@ func init() {
 	Register(&Monitor{
 		ID: "C18",
 		Rule: "per generated document: (a) every split of generated multi-step paths into prefix P / suffix R (all axes, predicates, reverse axes leaving the subtree): identity-set equality of Exec(root,'P/R') with the union over n in Exec(root,P) of Exec(n,R) — library vs library — and with the reference model; " +
-			"(b) Exec(n, R) for every node n of every kind (element, attribute, namespace, text, comment, PI, root) x relative expressions vs the model with context (n,1,1); (c) position() and last() as whole expressions from every start node; " +
+			"(b) Exec(n, R) for every node n of every kind (element, attribute, namespace, text, comment, PI, root) x relative expressions vs the model with context (n,1,1); (c) position() and last() as whole expressions from every start node; (b') the same with fewer bindings than the document has declarations: a prefix the query does not bind is an error from every start node; " +
 			"(e) the same composition for prefixes that mix elements with their own attribute and namespace nodes — parenthesised unions (A | A/@* | A//@*) and node-set variables held in document, reverse and shuffled order — continued with /R and //R; (d) P/f() vs f(P) for f in {string, number, name, local-name, namespace-uri, string-length, normalize-space}. distinct_nontrivial = distinct (document shape, expression, split point / start-node kind) with a non-empty result",
 		Assumptions: []string{"function-call steps are generated only as zero-argument context-dependent builtins (the form the statement covers)", "absolute paths inside R are not generated (root of a sub-query is ambiguous)"},
 		NCases:      func(tier string) int { return map[string]int{"quick": 2500, "thorough": 100000}[tier] },
@@ -296,6 +296,39 @@ func c18Case(r *evid.Run, tier string, idx int, g *rng.R) {
 					nt = true
 				}
 				r.Sig(fmt.Sprintf("%s|%s|from:%s", shape, xast.String(e), node.Kind), nt)
+			}
+		}
+	}
+	// (b') the names a sub-query may use are those of the query's bindings, wherever it starts: with
+	// only p bound, q:... and r:... are errors from every node (also below an xmlns:q declaration),
+	// exactly as for the query started at the root
+	{
+		few := map[string]string{"p": canonNS["p"], "xml": adoc.XMLNS}
+		w2 := *w
+		w2.env = &refeval.Env{Doc: d, NS: few}
+		w2.opts = nsOpts(few)
+		var qn []xast.QN
+		for _, e := range elems {
+			if e.Prefix == "q" || e.Prefix == "r" {
+				qn = append(qn, e)
+			}
+		}
+		qn = append(qn, xast.QN{Prefix: "q", Local: "a"})
+		for _, node := range d.All {
+			if !g.P(40) {
+				continue
+			}
+			q := rng.Pick(g, qn)
+			for _, e := range []xast.Expr{
+				xast.Rel(xast.Step{Axis: "child", Test: xast.NameT(q.Prefix, q.Local), Abbrev: true}),
+				xast.Rel(xast.S("descendant-or-self", xast.Test{Kind: xast.TNSAny, Prefix: q.Prefix})),
+				xast.Fn("count", xast.Rel(xast.S("ancestor-or-self", xast.NameT(q.Prefix, q.Local)))),
+				xast.Rel(xast.Step{Axis: "attribute", Test: xast.NameT(q.Prefix, "id"), Abbrev: true}),
+				xast.Rel(xast.Step{Axis: "child", Test: xast.NameT("p", q.Local), Abbrev: true}),
+			} {
+				if _, ok := w2.check(r, "from-node/unbound-prefix", idx, node, e, false); ok {
+					r.Tab("start_kind", "unbound-prefix from "+node.Kind.String(), 1)
+				}
 			}
 		}
 	}
